@@ -148,6 +148,66 @@ fn struct_mutants(m: &BytecodeModule) -> Vec<(&'static str, BytecodeModule)> {
             }
         }
     }
+    // ---- whole tables emptied / sections dropped (a container without resources, without POUs, ...)
+    for si in 0..m.sections.len() {
+        let mut x = m.clone();
+        let emptied = match &mut x.sections[si].data {
+            SectionData::StringTable(t) | SectionData::DebugStringTable(t) => {
+                t.entries.clear();
+                true
+            }
+            SectionData::ConstPool(t) => {
+                t.entries.clear();
+                true
+            }
+            SectionData::RefTable(t) => {
+                t.entries.clear();
+                true
+            }
+            SectionData::PouIndex(t) => {
+                t.entries.clear();
+                true
+            }
+            SectionData::ResourceMeta(t) => {
+                t.resources.clear();
+                true
+            }
+            SectionData::IoMap(t) => {
+                t.bindings.clear();
+                true
+            }
+            SectionData::VarMeta(t) => {
+                t.entries.clear();
+                true
+            }
+            SectionData::RetainInit(t) => {
+                t.entries.clear();
+                true
+            }
+            SectionData::DebugMap(t) => {
+                t.entries.clear();
+                true
+            }
+            _ => false,
+        };
+        if emptied {
+            out.push(("table_emptied", x));
+        }
+        if let SectionData::ResourceMeta(t) = &m.sections[si].data {
+            // resources without tasks
+            let mut y = m.clone();
+            if let SectionData::ResourceMeta(ty) = &mut y.sections[si].data {
+                for r in &mut ty.resources {
+                    r.tasks.clear();
+                }
+            }
+            let _ = t;
+            out.push(("tasks_emptied", y));
+        }
+        let mut z = m.clone();
+        z.sections.remove(si);
+        out.push(("section_dropped", z));
+    }
     // ---- constants
     for c in 0..n_consts.min(12) {
         for (label, f) in [
@@ -457,6 +517,55 @@ fn exercise_light(kind: &str, bytes: &[u8], stats: &mut Stats) -> Result<(), Vio
     Ok(())
 }
 
+/// Hot reload the way the control endpoint does it: a `ReloadBytecode` command to the real resource thread, once with
+/// the requester still waiting and once with the requester gone (it gave up while the resource was parked at its
+/// start gate). The thread must survive both, answer a later request and stop cleanly.
+fn reload_through_resource_thread(src: &str, bytes: &[u8], stats: &mut Stats) -> Result<(), Violation> {
+    use std::sync::mpsc::channel;
+    use std::sync::Arc;
+    use trust_runtime::scheduler::{ManualClock, ResourceCommand, ResourceRunner, ResourceState, StartGate};
+    let rt = match world::compile(src) {
+        Ok(rt) => rt,
+        Err(_) => return Ok(()),
+    };
+    let gate = Arc::new(StartGate::new());
+    let clock = ManualClock::new();
+    let runner = ResourceRunner::new(rt, clock.clone(), Duration::from_millis(10)).with_start_gate(gate.clone());
+    let mut handle = match guard("ResourceRunner::spawn", move || runner.spawn("c11-reload"))? {
+        Ok(h) => h,
+        Err(e) => return Err(Violation::new("harness/spawn", format!("{e:?}"))),
+    };
+    let control = handle.control();
+    // 1. requester gone: the receiver is dropped before the resource gets to the command
+    let (tx_gone, rx_gone) = channel();
+    drop(rx_gone);
+    let _ = control.send_command(ResourceCommand::ReloadBytecode { bytes: bytes.to_vec(), respond_to: tx_gone });
+    // 2. requester waiting
+    let (tx, rx) = channel();
+    let _ = control.send_command(ResourceCommand::ReloadBytecode { bytes: bytes.to_vec(), respond_to: tx });
+    gate.open();
+    clock.advance(Duration::from_millis(10));
+    // generous bound: this is a hang detector for a dead thread, not a timing oracle
+    let answer = rx.recv_timeout(std::time::Duration::from_secs(120));
+    let alive = answer.is_ok();
+    handle.stop();
+    clock.advance(Duration::from_millis(10));
+    let joined = handle.join();
+    stats.inc("probe.hot_reload_through_resource_thread");
+    if joined.is_err() || !alive {
+        return Err(Violation::new(
+            "reload/resource-thread-died",
+            format!("hot reload of a valid container through the resource thread: reply to the waiting requester {:?}, join {:?} (one earlier requester had gone away before its reload ran)", answer.as_ref().map(|r| r.is_ok()).map_err(|e| e.to_string()), joined.as_ref().map(|_| ()).map_err(|_| "thread panicked")),
+        ));
+    }
+    if let Ok(Err(e)) = &answer {
+        return Err(Violation::new("reload/valid-container-rejected-by-resource-thread", format!("{e:?}")));
+    }
+    // (the generated program may legitimately fault in its first cycles: the final state is not judged here)
+    let _ = ResourceState::Stopped;
+    Ok(())
+}
+
 impl Check for C11Check {
     fn id(&self) -> &'static str {
         "C11"
@@ -544,6 +653,7 @@ impl Check for C11Check {
             "probe.cross_reload_of_sibling_container",
             "probe.apply_sized_image_beyond_allocation_bound",
             "probe.mutant_refused_by_encoder",
+            "probe.hot_reload_through_resource_thread",
         ] {
             stats.add(p, 0);
         }
@@ -557,7 +667,15 @@ impl Check for C11Check {
         let src = proggen::render(&case["project"]);
         let bytes = match guard("compile", || trust_runtime::harness::bytecode_bytes_from_source(&src))? {
             Ok(b) => b,
-            Err(_) => {
+            Err(e) => {
+                // the front end decides what a program is: when it accepts the source (the runtime builds), the
+                // encoder must deliver a container that passes its own validation
+                if world::compile(&src).is_ok() {
+                    return Err(Violation::new(
+                        "clean/accepted-program-has-no-valid-container",
+                        format!("the checker accepts the program and the runtime builds, but the bytecode build fails: {e}\n{src}"),
+                    ));
+                }
                 stats.inc("rejected_by_compiler");
                 return Ok(());
             }
@@ -610,6 +728,7 @@ impl Check for C11Check {
             Err(_) => {}
         }
         stats.inc("probe.clean_roundtrip");
+        reload_through_resource_thread(&src, &bytes, stats)?;
         let reload = Reload { src: &src, cycles_before: case["cycles_before"].as_u64().unwrap_or(0) };
         // the undamaged container and the sibling's container, reloaded into this world
         exercise("clean", &bytes, &reload, stats)?;
